@@ -130,6 +130,19 @@ Fixpoint logical (p : parr) : list lval :=
       map (fun i => if valid nl i then VList (sub (i * sz) sz lv) else VNull) (seq 0 len)
   end.
 
+(* ------------------------------------------------------------------ well-formedness (what arrow-rs guarantees by construction) *)
+Fixpoint wfb (p : parr) : bool :=
+  match p with
+  | PLeaf _ _ _ _ => true
+  | PStruct len fs _ => forallb (fun f => Nat.eqb (plen (snd f)) len && wfb (snd f)) fs
+  | PList _ offs v _ =>
+      Nat.leb 1 (length offs)
+      && forallb (fun i => Z.leb 0 (nth i offs 0%Z) && Z.leb (nth i offs 0%Z) (nth (S i) offs 0%Z)) (seq 0 (length offs - 1))
+      && Nat.leb (off_at offs (length offs - 1)) (plen v)
+      && wfb v
+  | PFsl sz len v _ => Nat.eqb (plen v) (len * sz) && wfb v
+  end.
+
 (* ------------------------------------------------------------------ decidable equalities *)
 Definition leafval_eqb (a b : leafval) : bool :=
   match a, b with
@@ -517,17 +530,25 @@ Definition pushdown_nulls (p : parr) : outcome parr :=
   end.
 
 (* ------------------------------------------------------------------ deepcopy.rs *)
-Definition deep_copy_nulls (nl : option bitview) : option bitview :=
-  match nl with None => None | Some bv => Some (fst bv, snd bv) end.
+(* deep_copy_nulls copies the raw buffer and keeps (offset, len); ArrayDataBuilder::build_unchecked then
+   drops a bitmap that has no null in its window *)
+Definition deep_copy_nulls (nl : option bitview) (len : nat) : option bitview :=
+  drop_empty_nulls (match nl with None => None | Some bv => Some (fst bv, snd bv) end) len.
 Fixpoint deep_copy (p : parr) : parr :=
   match p with
-  | PLeaf k aoff vals nl => PLeaf k aoff vals (deep_copy_nulls nl)
-  | PStruct len fs nl => PStruct len (map (fun f => (fst (fst f), snd (fst f), deep_copy (snd f))) fs) (deep_copy_nulls nl)
-  | PList lg offs v nl => PList lg offs (deep_copy v) (deep_copy_nulls nl)
-  | PFsl sz len v nl => PFsl sz len (deep_copy v) (deep_copy_nulls nl)
+  | PLeaf k aoff vals nl => PLeaf k aoff vals (deep_copy_nulls nl (length vals))
+  | PStruct len fs nl =>
+      PStruct len (map (fun f => (fst (fst f), snd (fst f), deep_copy (snd f))) fs) (deep_copy_nulls nl len)
+  | PList lg offs v nl => PList lg offs (deep_copy v) (deep_copy_nulls nl (length offs - 1))
+  | PFsl sz len v nl => PFsl sz len (deep_copy v) (deep_copy_nulls nl len)
   end.
 (* deep_copy_array_sliced: MutableArrayData::extend(0, offset, offset + len) + freeze *)
-Definition deep_copy_sliced (p : parr) : parr := pcompact p.
+(* deep_copy_array_data_sliced calls extend(0, data.offset(), data.offset() + data.len()) although
+   MutableArrayData already works relative to the array's own offset: rows [aoff, aoff + len) are copied.
+   Array::offset() is non-zero only for a (top-level) Boolean array; the rows past the view are whatever
+   the buffers hold there (the model has the validity bits but not the value bits: such inputs are in the
+   class Known_C40_bool_offset and are not part of the correspondence stream). *)
+Definition deep_copy_sliced (p : parr) : parr := ptake (map Some (seq (parr_offset p) (plen p))) p.
 
 (* ------------------------------------------------------------------ lib.rs: project *)
 Definition find_dfield (n : N) (fs : list dfield) : option dfield := find (fun f => N.eqb (dname f) n) fs.
@@ -679,6 +700,163 @@ Section Json.
             end) (combine (seq 0 (length col)) col).
 End Json.
 
+(* ================================================================== row-wise specifications and class predicates *)
+(* k-th child of a struct value; a null struct reads as null children *)
+Definition vchild (v : lval) (k : nat) : lval :=
+  match v with VStruct fs => nth k (map snd fs) VNull | _ => VNull end.
+Fixpoint dindex (n : N) (fs : list dfield) : option nat :=
+  match fs with
+  | [] => None
+  | f :: fs' => if N.eqb (dname f) n then Some 0 else option_map S (dindex n fs')
+  end.
+Definition is_dstruct (t : dtype) : bool := match t with DStruct _ => true | _ => false end.
+Definition dfields (t : dtype) : list dfield := match t with DStruct fs => fs | _ => [] end.
+
+(* RecordBatchExt::merge, what one output row must be: null iff both rows are null; the left columns in
+   order (a column on both sides: two structs are merged, anything else is the left one), then the
+   right-only columns; the columns of a null row read as null. *)
+Fixpoint merge_val (tl tr : dtype) (lv rv : lval) {struct tl} : lval :=
+  match tl with
+  | DStruct lfs =>
+      match lv, rv with
+      | VNull, VNull => VNull
+      | _, _ =>
+          let rfs := dfields tr in
+          VStruct
+            ((fix go (k : nat) (fs : list dfield) : list (N * lval) :=
+                match fs with
+                | [] => []
+                | f :: fs' =>
+                    (fst (fst f),
+                     match dindex (fst (fst f)) rfs with
+                     | Some j =>
+                         match snd f with
+                         | DStruct _ =>
+                             if is_dstruct (dftype (nth j rfs (0%N, true, DLeaf 0)))
+                             then merge_val (snd f) (dftype (nth j rfs (0%N, true, DLeaf 0))) (vchild lv k) (vchild rv j)
+                             else vchild lv k
+                         | _ => vchild lv k
+                         end
+                     | None => vchild lv k
+                     end) :: go (S k) fs'
+                end) 0 lfs
+             ++ map (fun jf : nat * dfield => (dname (snd jf), vchild rv (fst jf)))
+                    (filter (fun jf : nat * dfield => negb (existsb (fun f => N.eqb (dname f) (dname (snd jf))) lfs))
+                            (combine (seq 0 (length rfs)) rfs)))
+      end
+  | _ => lv
+  end.
+
+(* the property of one merge call *)
+Definition merge_rows_ok (l r m : parr) : bool :=
+  rows_eqb (logical m) (map2 (merge_val (ptype l) (ptype r)) (logical l) (logical r)).
+
+(* classes of inputs on which merge_struct_validity / adjust_child_validity deviate (KNOWN_FINDINGS.txt) *)
+Definition one_sided_nulls (l r : option bitview) (n : nat) : bool :=
+  let a := count_nulls l n in
+  let b := count_nulls r n in
+  (Nat.ltb 0 a && Nat.ltb a n && Nat.eqb b 0) || (Nat.ltb 0 b && Nat.ltb b n && Nat.eqb a 0).
+Definition both_all_null (l r : option bitview) (n : nat) : bool :=
+  Nat.ltb 0 n && Nat.eqb (count_nulls l n) n && Nat.eqb (count_nulls r n) n.
+(* the bit offset of the parent validity is not the one the adjusted child will be read with *)
+Definition validity_offset_dropped (child : parr) (parent : option bitview) (n : nat) : bool :=
+  match parent with
+  | None => false
+  | Some pv =>
+      negb (Nat.eqb (count_nulls parent n) 0) &&
+      match pnulls child with
+      | None => negb (Nat.eqb (parr_offset child) (snd pv))
+      | Some _ => negb (Nat.eqb (parr_offset child) 0)
+      end
+  end.
+(* a child is physically valid in a row where its parent is null *)
+Definition masked_values_leak (child : parr) (parent : option bitview) (n : nat) : bool :=
+  existsb (fun i => negb (valid parent i) && valid (pnulls child) i) (seq 0 n).
+
+(* [merge_clean l r]: the merge of l and r meets none of the classes, and no List<Struct> column is on
+   both sides (that arm of merge has no row-wise specification here). *)
+Fixpoint merge_clean (l r : parr) {struct l} : bool :=
+  match l, r with
+  | PStruct llen lfs lnl, PStruct rlen rfs rnl =>
+      Nat.eqb llen rlen
+      && negb (one_sided_nulls lnl rnl llen) && negb (both_all_null lnl rnl llen)
+      && forallb (fun lf : field =>
+           match find_field (fst (fst lf)) rfs with
+           | Some rf =>
+               match snd lf with
+               | PStruct _ _ _ =>
+                   if is_pstruct (fcol rf)
+                   then negb (masked_values_leak (snd lf) lnl llen) && negb (masked_values_leak (fcol rf) rnl rlen)
+                        && merge_clean (snd lf) (fcol rf)
+                   else negb (validity_offset_dropped (snd lf) lnl llen)
+               | PList false _ lv _ =>
+                   negb (is_pstruct lv && is_list_of_struct (fcol rf))
+                   && negb (validity_offset_dropped (snd lf) lnl llen)
+               | _ => negb (validity_offset_dropped (snd lf) lnl llen)
+               end
+           | None => negb (validity_offset_dropped (snd lf) lnl llen)
+           end) lfs
+      && forallb (fun rf : field => negb (validity_offset_dropped (fcol rf) rnl rlen))
+                 (filter (fun rf => negb (has_field (fname rf) lfs)) rfs)
+  | _, _ => false
+  end.
+
+(* [merge_class c l r]: class c occurs somewhere in the merge of l and r.
+   0 one_sided_nulls, 1 both_all_null, 2 validity_offset_dropped, 3 masked_values_leak,
+   4 list_struct_duplicate_column, 5 nonnullable_child_panics (a non-nullable child under a parent with nulls) *)
+Definition adjust_class (c : N) (f : field) (parent : option bitview) (n : nat) : bool :=
+  (N.eqb c 2 && validity_offset_dropped (fcol f) parent n)
+  || (N.eqb c 5 && negb (fnullable f) && negb (Nat.eqb (count_nulls parent n) 0)).
+Fixpoint merge_class (c : N) (l r : parr) {struct l} : bool :=
+  match l, r with
+  | PStruct llen lfs lnl, PStruct rlen rfs rnl =>
+      (N.eqb c 0 && one_sided_nulls lnl rnl llen)
+      || (N.eqb c 1 && both_all_null lnl rnl llen)
+      || existsb (fun lf : field =>
+           match find_field (fst (fst lf)) rfs with
+           | Some rf =>
+               match snd lf with
+               | PStruct _ _ _ =>
+                   if is_pstruct (fcol rf)
+                   then (N.eqb c 3 && (masked_values_leak (snd lf) lnl llen || masked_values_leak (fcol rf) rnl rlen))
+                        || merge_class c (snd lf) (fcol rf)
+                   else adjust_class c lf lnl llen
+               | PList false _ lv _ =>
+                   if is_pstruct lv && is_list_of_struct (fcol rf)
+                   then N.eqb c 4 && dtype_eqb (ptype lv) (ptype (pvalues (fcol rf)))
+                   else adjust_class c lf lnl llen
+               | _ => adjust_class c lf lnl llen
+               end
+           | None => adjust_class c lf lnl llen
+           end) lfs
+      || existsb (fun rf : field => adjust_class c rf rnl rlen)
+                 (filter (fun rf => negb (has_field (fname rf) lfs)) rfs)
+  | _, _ => false
+  end.
+Definition Known_C40_one_sided_nulls := merge_class 0.
+Definition Known_C40_both_all_null := merge_class 1.
+Definition Known_C40_validity_offset_dropped := merge_class 2.
+Definition Known_C40_masked_values_leak := merge_class 3.
+Definition Known_C40_list_struct_duplicate_column := merge_class 4.
+Definition Known_C40_nonnullable_child_panics := merge_class 5.
+(* merge_with_schema: a list column (present on both sides) whose first offset is not 0 / whose validity differs *)
+Definition Known_C40_list_offsets_not_rebased (l r : parr) : bool :=
+  existsb (fun lf : field =>
+             match fcol lf, find_field (fname lf) (pfields r) with
+             | PList _ offs _ _, Some _ => negb (Nat.eqb (off_at offs 0) 0)
+             | _, _ => false
+             end) (pfields l).
+Definition Known_C40_list_validity_differs (l r : parr) : bool :=
+  existsb (fun lf : field =>
+             match fcol lf, find_field (fname lf) (pfields r) with
+             | PList _ _ _ lnl, Some rf =>
+                 match fcol rf with
+                 | PList _ _ _ rnl => negb (list_eqb Bool.eqb (validity lnl (plen (fcol lf))) (validity rnl (plen (fcol rf))))
+                 | _ => false
+                 end
+             | _, _ => false
+             end) (pfields l).
+
 (* ================================================================== correspondence checkers *)
 Definition out_rows_eqb (a b : dtype * list lval) : bool := dtype_eqb (fst a) (fst b) && rows_eqb (snd a) (snd b).
 Definition describe (p : parr) : dtype * list lval := (ptype p, logical p).
@@ -688,8 +866,12 @@ Definition omap_out {A B} (f : A -> B) (x : outcome A) : outcome B :=
 Definition chk_logical (p : parr) (out : dtype * list lval) : bool := out_rows_eqb (describe p) out.
 Definition chk_slice (i : parr * (nat * nat)) (out : parr) : bool :=
   parr_eqb (pslice (fst (snd i)) (snd (snd i)) (fst i)) out.
+(* besides model = implementation: on every pair outside the classes the model result satisfies the
+   row-wise specification (a test of the statement of C40_merge on the generated inputs) *)
 Definition chk_merge (i : parr * parr) (out : outcome (dtype * list lval)) : bool :=
-  outcome_eqb out_rows_eqb (omap_out describe (batch_merge (fst i) (snd i))) out.
+  outcome_eqb out_rows_eqb (omap_out describe (batch_merge (fst i) (snd i))) out
+  && (negb (wfb (fst i) && wfb (snd i) && merge_clean (fst i) (snd i))
+      || match batch_merge (fst i) (snd i) with Ok m => merge_rows_ok (fst i) (snd i) m | _ => true end).
 Definition chk_merge_schema (i : parr * parr * list dfield) (out : outcome (dtype * list lval)) : bool :=
   outcome_eqb out_rows_eqb (omap_out describe (batch_merge_with_schema (fst (fst i)) (snd (fst i)) (snd i))) out.
 Definition chk_project (i : parr * list dfield) (out : outcome (dtype * list lval)) : bool :=
